@@ -51,6 +51,9 @@ FILES = {
     "OSq.Sem.Grammar": {"C04": None},
     "OSq.Proofs.Bands": {"C01": None, "C02": ["OSq.Bands.composeRot_identity_band", "OSq.Bands.compose_identity_dist", "OSq.Bands.filter_identities_band"], "C15": ["OSq.Bands.rot_lipschitz", "OSq.Bands.rot_identity_band"]},
     "OSq.Proofs.SchedSem": {"C11": None},
+    "OSq.Proofs.Bands2": {"C02": None, "C14": ["OSq.Bands.filter_identities_band_sharp"]},
+    "OSq.Proofs.Bands3": {"C01": None, "C10": ["OSq.Bands.mckay_all_inputs"]},
+    "OSq.Proofs.Bands4": {"C01": None},
     "OSq.Proofs.MergeIdem": {"C14": None, "C02": ["OSq.merge_idem_sem"]},
     "OSq.Proofs.GateTable": {"C07": None},
     "OSq.Proofs.Shape": {"C10": None},
